@@ -24,6 +24,14 @@ import (
 )
 
 func (k *KVStore) evictTable(t *table.Table) error {
+	if len(k.tables) != 0 && t == k.tables[len(k.tables)-1] {
+		// The active table cannot be compacted into itself: retire it first so
+		// that its live entries move to a new active table.
+		if err := k.makeTable(); err != nil {
+			return err
+		}
+	}
+
 	var total int
 	var evictErr error
 	t.Range(func(hkey uint64, e storage.Entry) bool {
